@@ -1169,7 +1169,8 @@ def case_term_and_expected(obs, max_pubs=40):
 
 PREAMBLE = ('From Coq Require Import ZArith List.\nImport ListNotations.\n'
             'From TM Require Import Master.Publish Master.Restore Gen.Tables.\nOpen Scope Z_scope.\n'
-            'Definition c10_cfg : cfg := cfg_of_tables c10_reschedule_phases c10_changed_filter c10_init_phases.\n')
+            'Definition c10_cfg : cfg := cfg_of_tables c10_reschedule_phases c10_changed_filter c10_init_phases '
+            'c10_init_flags c10_integrity_flags.\n')
 RUN_FN = '(run_case11 c10_cfg)'
 IN_TYPE = 'list obs * list robs'
 MODEL_VOS = ['Master/Publish', 'Master/Restore', 'Gen/Tables']
